@@ -1,3 +1,10 @@
+import SphericalVerif.Props.C17
 import SphericalVerif.Props.HKernel
+#print axioms C17.objDvec_eq_map
+#print axioms C17.objYvec_eq_map
+#print axioms C17.objDvec_getElem
+#print axioms C17.objDloop_mem
+#print axioms C17.evaluateHornerK_out_indep
+#print axioms C17.evaluateHornerK_eq
 #print axioms HKernel.runH_pure
 #print axioms HKernel.runH_size_indep
